@@ -190,6 +190,181 @@ def browserEval (tr : Link.Trace) (endT tb : Int) (b : Link.Br) (types : List St
           && l2.all fun y => !(y.h == b.host && (Link.ptrOf s y.items).isSome) || decide (o.t < y.t))
         || decide (WireAskWithout tr b s o) }
 
+/-! #### soundness -/
+
+theorem tailsAll_spec {α : Type} (P : α → List α → Bool) : ∀ (l : List α), tailsAll P l = true →
+    ∀ l1 x l2, l = l1 ++ x :: l2 → P x l2 = true
+  | [], _, l1, x, l2, h => by cases l1 <;> simp at h
+  | a :: r, hp, l1, x, l2, h => by
+    simp only [tailsAll, Bool.and_eq_true] at hp
+    cases l1 with
+    | nil =>
+      simp only [List.nil_append, List.cons.injEq] at h
+      obtain ⟨rfl, rfl⟩ := h
+      exact hp.1
+    | cons c l1' =>
+      simp only [List.cons_append, List.cons.injEq] at h
+      exact tailsAll_spec P r hp.2 l1' x l2 h.2
+
+theorem tailsAny_spec {α : Type} (P : α → List α → Bool) : ∀ (l : List α), tailsAny P l = true →
+    ∃ l1 x l2, l = l1 ++ x :: l2 ∧ P x l2 = true
+  | [], h => by simp [tailsAny] at h
+  | a :: r, h => by
+    simp only [tailsAny, Bool.or_eq_true] at h
+    rcases h with h | h
+    · exact ⟨[], a, r, rfl, h⟩
+    · obtain ⟨l1, x, l2, rfl, hp⟩ := tailsAny_spec P r h
+      exact ⟨a :: l1, x, l2, rfl, hp⟩
+
+theorem oneName_of_B {a n : String} {evs : List (Int × Op)} (h : oneNameB a n evs = true) : OneName a n evs := by
+  intro e he a' n' ttl cr heq hb
+  have := List.all_eq_true.mp h e he
+  rw [heq] at this
+  simp only [hb, Bool.not_true, Bool.false_or, beq_iff_eq] at this
+  exact this
+
+theorem superseded_of_B {h : Nat} {s : Link.Svc} {l2 : List Link.DlvE} {x : Link.DlvE} {e : Nat} {τ : Int}
+    (hb : supersededB h s l2 x e τ = true) : Superseded h s l2 x e τ := by
+  simp only [supersededB, Bool.or_eq_true, List.any_eq_true, Bool.and_eq_true, beq_iff_eq, decide_eq_true_eq] at hb
+  rcases hb with ⟨y, hy, ⟨h1, h2⟩, h3⟩ | hb
+  · exact Or.inl ⟨y, hy, h1, h2, h3⟩
+  · exact Or.inr hb
+
+theorem learned_of_B {a n : String} {e : Nat} {x : Link.DlvE} {later : Int → Bool} {pre0 evs : List (Int × Op)}
+    (h : learnedB a n e x later pre0 evs = true) : Learned a n e x (fun τ => later τ = true) pre0 evs := by
+  have hafter : ∀ l : List (Int × Op), (l.all fun op => !(op.2.touches a) || later op.1) = true →
+      ∀ op ∈ l, op.2.touches a = true → later op.1 = true := by
+    intro l hl op hop ht
+    have := List.all_eq_true.mp hl op hop
+    simpa [ht] using this
+  simp only [learnedB, Bool.or_eq_true] at h
+  rcases h with h | h
+  · obtain ⟨pre, op, post, rfl, hp⟩ := tailsAny_spec _ _ h
+    simp only [Bool.and_eq_true, beq_iff_eq] at hp
+    obtain ⟨rfl, hpost⟩ := hp
+    exact Or.inl ⟨pre, post, rfl, hafter post hpost⟩
+  · obtain ⟨pre0a, op, pre0b, rfl, hp⟩ := tailsAny_spec _ _ h
+    simp only [Bool.and_eq_true] at hp
+    obtain ⟨⟨hop, hun⟩, hevs⟩ := hp
+    obtain ⟨t', o⟩ := op
+    cases o with
+    | ptr a' n' e' cr =>
+      simp only [Bool.and_eq_true, beq_iff_eq] at hop
+      obtain ⟨⟨⟨rfl, rfl⟩, rfl⟩, rfl⟩ := hop
+      refine Or.inr ⟨pre0a, t', pre0b, rfl, ?_, hafter evs hevs⟩
+      intro op hop'
+      have := List.all_eq_true.mp hun op hop'
+      simpa using this
+    | start _ => simp at hop
+    | cancel _ => simp at hop
+    | fire _ => simp at hop
+    | stop => simp at hop
+
+/-- `Learned` is monotone in what it allows later -/
+theorem Learned.mono {a n : String} {e : Nat} {x : Link.DlvE} {P Q : Int → Prop} {pre0 evs : List (Int × Op)}
+    (hPQ : ∀ τ, P τ → Q τ) (h : Learned a n e x P pre0 evs) : Learned a n e x Q pre0 evs := by
+  rcases h with ⟨pre, post, h1, h2⟩ | ⟨pre0a, t', pre0b, h1, h2, h3⟩
+  · exact Or.inl ⟨pre, post, h1, fun op hop ht => hPQ _ (h2 op hop ht)⟩
+  · exact Or.inr ⟨pre0a, t', pre0b, h1, h2, fun op hop ht => hPQ _ (h3 op hop ht)⟩
+
+/-- the history on which `run … covers`, `wire` evaluate to `true` is a `BrowserRun` -/
+theorem browserEval_sound (tr : Link.Trace) (endT tb : Int) (b : Link.Br) (types : List String) (n : String) (minDelay : Nat)
+    (tS : Int) (pre0 : List (Int × Op)) (d : Nat) (evs : List (Int × Op)) (aliasOf : Link.Svc → String)
+    (h : let e := browserEval tr endT tb b types n minDelay tS pre0 d evs aliasOf
+         (e.run && e.nIn && e.idle && e.active && e.covers && e.wire) = true) :
+    BrowserRun tr endT tb b := by
+  simp only [browserEval, Bool.and_eq_true] at h
+  obtain ⟨⟨⟨⟨⟨h1, h2⟩, h3⟩, h4⟩, h5⟩, h6⟩ := h
+  cases hx : Sched2.exec2 (browserCfg types minDelay none) {} tS (pre0 ++ (tb, .start d) :: evs) with
+  | error err => rw [hx] at h1; simp at h1
+  | ok r =>
+    obtain ⟨s', outs⟩ := r
+    rw [hx] at h6
+    simp only [Option.getD_some] at h6
+    refine ⟨⟨types, n, minDelay, tS, pre0, d, evs, s', outs, by simpa using h2, ?_, ?_, hx, by simpa using h5, ?_⟩⟩
+    · intro e he; exact List.all_eq_true.mp h3 e he
+    · intro e he; exact List.all_eq_true.mp h4 e he
+    · intro o ho hn ht
+      have := List.all_eq_true.mp h6 o ho
+      simpa [hn, ht] using this
+
+/-- … and, with the default rate limit and `names`, `learned`, `wireWithout`, a `RefreshRun` -/
+theorem browserEval_sound_refresh (tr : Link.Trace) (endT tb : Int) (b : Link.Br) (types : List String) (n : String)
+    (tS : Int) (pre0 : List (Int × Op)) (d : Nat) (evs : List (Int × Op)) (aliasOf : Link.Svc → String)
+    (h : let e := browserEval tr endT tb b types n 10000 tS pre0 d evs aliasOf
+         (e.run && e.nIn && e.idle && e.active && e.covers && e.names && e.learned && e.wireWithout) = true) :
+    RefreshRun tr endT tb b := by
+  simp only [browserEval, Bool.and_eq_true] at h
+  obtain ⟨⟨⟨⟨⟨⟨⟨h1, h2⟩, h3⟩, h4⟩, h5⟩, h6⟩, h7⟩, h8⟩ := h
+  cases hx : Sched2.exec2 (browserCfg types 10000 none) {} tS (pre0 ++ (tb, .start d) :: evs) with
+  | error err => rw [hx] at h1; simp at h1
+  | ok r =>
+    obtain ⟨s', outs⟩ := r
+    rw [hx] at h8
+    simp only [Option.getD_some] at h8
+    -- reading one entry of the per-PTR checks
+    have per : ∀ (f : Link.Svc → Link.DlvE → List Link.DlvE → Nat → Bool),
+        tailsAll (fun x l2 => !(x.h == b.host) || (Link.ptrSvcs x.items).all fun s =>
+          match Link.ptrOf s x.items with
+          | some (ttl, _) => !(s.ty == b.ty && decide (0 < ttl)) || f s x l2 (max ttl 1125)
+          | none => true) (Link.dlvs tr) = true →
+        ∀ (s : Link.Svc) (x : Link.DlvE) (l1 l2 : List Link.DlvE) (ttl : Nat) (full : Bool), s.ty = b.ty →
+          Link.dlvs tr = l1 ++ x :: l2 → x.h = b.host → Link.ptrOf s x.items = some (ttl, full) → 0 < ttl →
+          f s x l2 (max ttl 1125) = true := by
+      intro f hf s x l1 l2 ttl full hty hd hxh hp httl
+      have h0 := tailsAll_spec _ _ hf l1 x l2 hd
+      simp only [hxh, beq_self_eq_true, Bool.not_true, Bool.false_or] at h0
+      have h1 := List.all_eq_true.mp h0 s (Link.ptrOf_mem hp)
+      rw [hp] at h1
+      simpa [hty, httl] using h1
+    refine ⟨⟨types, n, tS, pre0, d, evs, s', outs, aliasOf, by simpa using h2, ?_, ?_, hx, by simpa using h5, ?_, ?_, ?_⟩⟩
+    · intro e he; exact List.all_eq_true.mp h3 e he
+    · intro e he; exact List.all_eq_true.mp h4 e he
+    · intro s hty hs
+      apply oneName_of_B
+      exact List.all_eq_true.mp h6 s (List.mem_filter.mpr ⟨hs, by simpa using hty⟩)
+    · intro s x l1 l2 ttl full hty hd hxh hp httl hl2 halive
+      have hf := per (fun s x l2 e =>
+          !((l2.all fun y => !(y.h == b.host && (Link.ptrOf s y.items).isSome) || decide (tb < y.t))
+            && decide (tb < x.t + 1000 * (e : Int)))
+          || learnedB (aliasOf s) n e x (supersededB b.host s l2 x e) pre0 evs) h7 s x l1 l2 ttl full hty hd hxh hp httl
+      simp only [Bool.or_eq_true, Bool.not_eq_true', Bool.and_eq_false_iff, decide_eq_false_iff_not] at hf
+      rcases hf with (hf | hf) | hf
+      · exfalso
+        rw [← Bool.not_eq_true, List.all_eq_true] at hf
+        apply hf
+        intro y hy
+        by_cases hc : (y.h == b.host && (Link.ptrOf s y.items).isSome) = true
+        · simp only [Bool.and_eq_true, beq_iff_eq] at hc
+          have := hl2 y hy hc.1 hc.2
+          simp [hc.1, hc.2, this]
+        · simp only [Bool.not_eq_true] at hc
+          simp [hc]
+      · exact absurd halive hf
+      · exact Learned.mono (fun τ hτ => superseded_of_B hτ) (learned_of_B hf)
+    · intro s x l1 l2 ttl full hty hd hxh hp httl o ho hn hlo hhi hl2
+      have hf := per (fun s x l2 e =>
+          outs.all fun o => !(o.types.contains n && decide (x.t + 500 * (e : Int) ≤ o.t) && decide (o.t ≤ endT)
+              && l2.all fun y => !(y.h == b.host && (Link.ptrOf s y.items).isSome) || decide (o.t < y.t))
+            || decide (WireAskWithout tr b s o)) h8 s x l1 l2 ttl full hty hd hxh hp httl
+      have ho' := List.all_eq_true.mp hf o ho
+      simp only [Bool.or_eq_true, Bool.not_eq_true', Bool.and_eq_false_iff, decide_eq_false_iff_not, decide_eq_true_eq] at ho'
+      rcases ho' with (((ho' | ho') | ho') | ho') | ho'
+      · simp [hn] at ho'
+      · exact absurd hlo ho'
+      · exact absurd hhi ho'
+      · exfalso
+        rw [← Bool.not_eq_true, List.all_eq_true] at ho'
+        apply ho'
+        intro y hy
+        by_cases hc : (y.h == b.host && (Link.ptrOf s y.items).isSome) = true
+        · simp only [Bool.and_eq_true, beq_iff_eq] at hc
+          have := hl2 y hy hc.1 hc.2
+          simp [hc.1, hc.2, this]
+        · simp only [Bool.not_eq_true] at hc
+          simp [hc]
+      · exact ho'
+
 end browser
 
 /-! ### `CacheRun` -/
